@@ -30,6 +30,7 @@ CLAUSE_TEXT = {
     "inorder": "selected input rails did not all run in order",
     "inputonly": "input-only request: reply is not the (rewritten) user text / refusal, or an LLM call was made",
     "supplied": "output rails on a supplied bot message: reply is not that message / its rewrite / the refusal",
+    "outran": "the output category was selected and a bot message supplied, but the output rails did not all run on it",
     "raillog": "log.activated_rails does not list exactly the rails that ran with stop on the blocker",
     "gate": "a dialog/generation step ran before all input rails finished",
     "order": "input rails not run in configured order, each once, complete unless blocked",
@@ -329,6 +330,30 @@ def directed_c03():
                 out.append({"cfg": cfg, "label": "second-action-fails-in-blocking-branch", "clauses": after, "turn_clauses": tc, "turns": turns})
                 turns2 = ([_turn("llm", *first)] if first else []) + [_turn("llm", ["A"], ["R"], auxfail=True), _turn("llm", *later), _turn("llm", *later)]
                 out.append({"cfg": cfg, "label": "second-action-fails-in-blocking-branch", "clauses": after, "turn_clauses": tc, "turns": turns2})
+    return out
+
+
+def directed_c16():
+    """C16: an empty user text next to a supplied bot message; an input-only call that ends in the refusal followed, in the
+    same conversation, by a call that selects the output rails for a supplied bot message."""
+    out = []
+    cfg = {"ver": 1, "nin": 1, "nout": 1, "dialog": True, "exc": False, "nret": 1, "pass": False, "shape": "tri"}
+    cl = ["selected", "inorder", "supplied", "outran", "raillog", "completes"]
+
+    def opts(*on):
+        return {"set": True, "input": "input" in on, "dialog": "dialog" in on, "retrieval": "retrieval" in on, "output": "output" in on}
+    for sel in (("output",), ("input", "output")):
+        for ov in ("A", "R", "W"):
+            out.append({"cfg": cfg, "label": "empty-user-text", "clauses": cl,
+                        "turns": [dict(_turn("llm", ["A"], [ov], emptyuser=True), opts=opts(*sel), sup=True)]})
+    for iv in ("R", "A"):
+        for ov in ("A", "R", "W"):
+            for sel2 in (("output",), ("input", "output")):
+                for via_state in (False, True):
+                    out.append({"cfg": cfg, "label": "options-across-calls", "via_state": via_state,
+                                "clauses": ["selected", "inorder", "inputonly", "supplied", "outran", "raillog", "completes"],
+                                "turns": [dict(_turn("llm", [iv], ["A"]), opts=opts("input")),
+                                          dict(_turn("llm", ["A"], [ov]), opts=opts(*sel2), sup=True)]})
     return out
 
 
